@@ -87,6 +87,44 @@ def period_consistency_spec(periods, direction, c):
     return O.period_consistency_ref(np.asarray(_as_list(periods), float), direction)[c]
 
 
+def _rows_match(out, src, k, i, cols, shift_cols, shift):
+    for c in cols:
+        o, v = out[c][k], src[c][i]
+        if c in shift_cols:
+            v = v - shift
+        if not same(o, v):
+            return False
+    return True
+
+
+def selects_between(out, src, lo, hi, shift_cols=(), shift=0):
+    """concrete reading of the contract form: is there an increasing map of the rows of `out` into the rows of `src`
+    (values equal, shift_cols lowered by shift) that hits every `lo` row and only `hi` rows?"""
+    if set(out.columns) != set(src.columns):
+        return False
+    cols = list(src.columns)
+    n, m = len(src), len(out)
+    lo, hi = [bool(x) for x in lo], [bool(x) for x in hi]
+    # reach[k] after processing i source rows: k output rows consumed
+    reach = {0}
+    for i in range(n):
+        nxt = set()
+        for k in reach:
+            if not lo[i]:
+                nxt.add(k)                                    # row i left out
+            if k < m and hi[i] and _rows_match(out, src, k, i, cols, shift_cols, shift):
+                nxt.add(k + 1)                                # row i is output row k
+        reach = nxt
+        if not reach:
+            return False
+    return m in reach
+
+
+def selects(out, src, mask, shift_cols=(), shift=0):
+    mask = [bool(x) for x in mask]
+    return selects_between(out, src, mask, mask, shift_cols, shift)
+
+
 class Evaluator:
     def __init__(self, env, old_env, max_index):
         self.env = env
@@ -121,7 +159,7 @@ class Evaluator:
             'amp_consistency_raw_spec': amp_consistency_raw_spec, 'period_consistency_spec': period_consistency_spec,
             'present': lambda d, k: d is not None and k in d, 'value': lambda d, k: d[k],
             'is_none': lambda v: v is None, 'ncols': lambda f: len(f.columns),
-            'osc3': lambda *a, **k: True,
+            'osc3': lambda *a, **k: True, 'selects_between': selects_between, 'selects': selects, 'round': round,
         }
         try:
             from neurodsp.timefrequency import amp_by_time
@@ -322,13 +360,18 @@ def check_call(fn, args, contract_case, contract_base):
                 return 'returned normally although %s was due: %s' % (cls, cond[:100])
         except Skip:
             continue
+    if contract_base.get('modifies') == []:
+        from .jobs_relational import deep_equal
+        for name, before in old_env.items():
+            if name in args and not deep_equal(args[name], before):
+                return 'the call modified its argument %s (the contract says it modifies nothing)' % name
     env['result'] = result
     ens = list(contract_base.get('ensures', [])) + list(contract_case.get('ensures', []))
     for k, e in enumerate(ens):
         try:
             ok = eval_clause(e, env, old_env)
-        except Skip:
-            continue
+        except (Skip, NameError):
+            continue                       # (a form the concrete evaluator does not know is a gap of the evaluator, not a finding)
         except Exception as ex:
             return 'ensures#%d not evaluable on the real result (%r): %s' % (k + 1, ex, e[:80])
         if not ok:
